@@ -27,6 +27,9 @@ Model (JSON):
          | {"t": "p", "init": bool, "imports": [...], "export": bool, "stub": bool, "ch": [node...]}      # sub-package s<i>/ (init False: no __init__.py)
          | {"t": "d", "ext": int, "name": int}     # compiled decoy d<i><ext>, or named after a module that is already in
                                                     # sys.modules (DECOY_NAMES: json, types, io, logging, sys, os)
+    (module / sub-package nodes may carry "all_from": None | [target_index, "from" | "attr"]: the module's __all__ is built from the
+     __all__ of another module that static analysis may be unable to load — a compiled decoy, a source-less / zipped / unloaded
+     package — `from T import __all__ as _all_ext; __all__ = _all_ext + [...]` or `import T; __all__ = T.__all__ + [...]`)
     (module / sub-package nodes may carry "enc": None | "latin-1" | "cp1252" | "bom": the source file is written in that PEP 263
      encoding with a coding cookie and a non-ASCII character, i.e. it is legal Python but not valid UTF-8; "bom" = UTF-8 with BOM)
     imp  = [pkg_index, module_index, "name" | "star"]   # indices are taken modulo the available packages / modules
@@ -135,7 +138,7 @@ SYSPATH_TAMPER = {
 }
 
 
-def _body(dotted: str, sentinel: str, imports: list[str], exports: list[str], fault: str | None, missing: str, stub: bool, tamper: str | None = None) -> str:
+def _body(dotted: str, sentinel: str, imports: list[str], exports: list[str], fault: str | None, missing: str, stub: bool, tamper: str | None = None, all_expr: str | None = None) -> str:
     lines = [
         f'"""Module {dotted}."""',
         f"with open({sentinel!r}, 'a') as _sentinel: _sentinel.write({dotted + chr(10)!r})",
@@ -143,7 +146,9 @@ def _body(dotted: str, sentinel: str, imports: list[str], exports: list[str], fa
     if tamper:
         lines.append(SYSPATH_TAMPER[tamper])
     lines += imports
-    if exports:
+    if all_expr:
+        lines.append(f"__all__ = {all_expr} + {exports!r}")
+    elif exports:
         lines.append(f"__all__ = {exports!r}")
     lines += [
         "V: int = 1",
@@ -182,6 +187,8 @@ def render(case, sentinel: str) -> dict:
     files: dict = {0: {}, 1: {}}
     out_decoys = []
     zips = []
+    # targets whose __all__ another module may build upon: compiled decoys first (the interesting ones), then every module
+    all_targets = [d["dotted"] for p, n in zip(case["pkgs"], names) for d in decoys(p, n)] + [m["dotted"] for m in all_mods]
     for pi, (pkg, name) in enumerate(zip(case["pkgs"], names)):
         root = files[pkg.get("root", 0) % 2]
         if pkg["layout"] == "zip":
@@ -204,8 +211,19 @@ def render(case, sentinel: str) -> dict:
                     exports.append(f"C{k}")
             if not node.get("export"):
                 exports = []
+            all_expr = None
+            af = node.get("all_from")
+            if af and all_targets:
+                target = all_targets[af[0] % len(all_targets)]
+                if target != m["dotted"] and not target.startswith(m["dotted"] + ".") and not m["dotted"].startswith(target + "."):
+                    if af[1] == "from":
+                        imports.append(f"from {target} import __all__ as _all_ext")
+                        all_expr = "_all_ext"
+                    else:
+                        imports.append(f"import {target}")
+                        all_expr = f"{target}.__all__"
             ft = fault["type"] if fault_mod == m["dotted"] else None
-            src = _body(m["dotted"], sentinel, imports, exports, ft, missing, stub=False, tamper=tamper["how"] if tamper_mod == m["dotted"] else None)
+            src = _body(m["dotted"], sentinel, imports, exports, ft, missing, stub=False, tamper=tamper["how"] if tamper_mod == m["dotted"] else None, all_expr=all_expr)
             if m["kind"] == "pyc":
                 root[f"{name}.pyc"] = _pyc_bytes(src, f"{name}.py")
             elif m["kind"] == "so":
@@ -227,7 +245,7 @@ def render(case, sentinel: str) -> dict:
                     root[rel + ".pyi"] = _body(m["dotted"], sentinel, [], exports, None, missing, stub=True).encode()
         for d in decoys(pkg, name):
             if d["ext"] == ".pyc":
-                src = _body(d["dotted"], sentinel, [], [], None, missing, stub=False)
+                src = _body(d["dotted"], sentinel, [], ["C", "f"], None, missing, stub=False)
                 root[d["rel"]] = _pyc_bytes(src, d["rel"])
             else:
                 root[d["rel"]] = GARBAGE
@@ -264,7 +282,8 @@ def strategy():
     from hypothesis import strategies as st
 
     imp = st.tuples(st.sampled_from([1, 1, 1, 2, 0]), st.integers(0, 7), st.sampled_from(["name", "name", "star"])).map(list)
-    mod_fields = {"enc": st.sampled_from([None] * 7 + ["latin-1", "cp1252", "bom"]), "imports": st.lists(imp, max_size=2), "export": st.sampled_from([True, True, False]), "stub": st.sampled_from([False, False, True])}
+    all_from = st.one_of(st.none(), st.none(), st.none(), st.tuples(st.integers(0, 9), st.sampled_from(["from", "attr"])).map(list))
+    mod_fields = {"all_from": all_from, "enc": st.sampled_from([None] * 7 + ["latin-1", "cp1252", "bom"]), "imports": st.lists(imp, max_size=2), "export": st.sampled_from([True, True, False]), "stub": st.sampled_from([False, False, True])}
     module = st.fixed_dictionaries({"t": st.just("m"), **mod_fields})
     decoy = st.fixed_dictionaries({"t": st.just("d"), "ext": st.integers(0, len(DECOY_EXTS) - 1), "name": st.integers(0, len(DECOY_NAMES) - 1)})
     leaf = st.one_of(module, module, decoy)
